@@ -103,16 +103,20 @@ func init() {
 		f := func(e *Encoder, fr *frame, args []*SVal, ci ssa.CallInstruction, resT types.Type) *SVal {
 			c := e.c
 			e.trusted["prometheus Counter/Gauge Inc/Dec change exactly that metric by one (goroutine-safe)"] = true
-			cls := "ghost:metric"
-			if args[0].T.Op == "app" && args[0].T.Name == "metricChild" {
-				cls = "ghost:metricvec"
-			}
-			arr := e.get(e.cur, cls, Arr(RefS, BV64))
 			d := uint64(1)
 			if n == "Dec" {
 				d = ^uint64(0)
 			}
-			e.set(e.cur, cls, c.Store(arr, args[0].T, c.BVBin("bvadd", c.Select(arr, args[0].T), c.BVLit(d, 64))))
+			if args[0].T.Op == "app" && args[0].T.Name == "metricChild" {
+				// child of a vector: ghost:metricvec[vector][label]
+				vec, lbl := args[0].T.Args[0], args[0].T.Args[1]
+				arr := e.get(e.cur, "ghost:metricvec", Arr(RefS, Arr(RefS, BV64)))
+				inner := c.Select(arr, vec)
+				e.set(e.cur, "ghost:metricvec", c.Store(arr, vec, c.Store(inner, lbl, c.BVBin("bvadd", c.Select(inner, lbl), c.BVLit(d, 64)))))
+				return &SVal{K: KTuple, Typ: resT}
+			}
+			arr := e.get(e.cur, "ghost:metric", Arr(RefS, BV64))
+			e.set(e.cur, "ghost:metric", c.Store(arr, args[0].T, c.BVBin("bvadd", c.Select(arr, args[0].T), c.BVLit(d, 64))))
 			return &SVal{K: KTuple, Typ: resT}
 		}
 		nativeModels["(prometheus.Counter)."+n] = f
@@ -133,6 +137,7 @@ func init() {
 		e.assumeFact(c.Not(c.Eq(r.Tag, c.Int(0))))
 		return r
 	}
+	nativeModels["(*github.com/prometheus/client_golang/prometheus.GaugeVec).WithLabelValues"] = nativeModels["(*github.com/prometheus/client_golang/prometheus.CounterVec).WithLabelValues"]
 	nativeModels["github.com/prometheus/client_golang/prometheus.NewTimer"] = func(e *Encoder, fr *frame, args []*SVal, ci ssa.CallInstruction, resT types.Type) *SVal {
 		r := e.freshVal("timer", resT)
 		e.assumeFact(e.c.Not(e.c.Eq(r.T, e.c.NilRef())))
@@ -204,6 +209,14 @@ func init() {
 					}
 				}
 				for _, cl := range ct.Ensures {
+					if strings.HasPrefix(cl.Tag, "keep.") {
+						// a frame clause "nothing but ... changed" / "E == old(E)" is reflexive and transitive:
+						// established by every call, it holds from the entry of the loop to its end
+						e.restoreBindings(op, pre)
+						env := e.contractEnv(nf, ct, nil, e.cur, pre)
+						e.assume(env.trClause(cl))
+						continue
+					}
 					if !strings.HasPrefix(cl.Tag, "inv.") || strings.Contains(cl.Text, "result") || strings.Contains(cl.Text, "old(") {
 						continue
 					}
